@@ -2,11 +2,11 @@ SPECIFICATION Spec
 CONSTANTS
   Kinds = {"A", "B"}
   MaxNest = 3
-  MaxSteps = 7
-  ObjKeptInCatch = TRUE
+  MaxSteps = 9
+  ObjKeptInCatch = FALSE
   ObjAfterMsg = TRUE
   ClearActive = TRUE
-  Emit = TRUE
+  Emit = FALSE
 VIEW view
 INVARIANT ExcOK
 ACTION_CONSTRAINT EmitEdge
